@@ -2,7 +2,8 @@
 C04 - graphs sharing the in-memory store are isolated; clones are independent (DESIGN.md §C04).
 
 case = {"fl": "shared"|"disjoint", "descs": [raw graph description, ...], "ops": [op, ...]}
-ops:  ["import", gid, desc index, "graphml"|"json", "string"|"file"|"string_none", "int"|"str", carried GraphID|None]
+ops:  ["import", gid, desc index, "graphml"|"json", "string"|"file"|"string_none", "int"|"str"|"gap", carried GraphID|None]
+      ["import_bad", gid, desc index, fmt, position of the node without NodeID]
       ["import_direct", gid, desc index, fmt, "string"|"file", keys]
       ["clone", src, dst], ["delete_graph", gid], ["delete_graph_imp", gid], ["delete_all"]
       + the node/link operations of C05 (add_node, delete_node, add_link, upd_node, unset_node, upd_node_props,
@@ -38,7 +39,7 @@ MIN_LABEL_FRACTION = {"nontrivial": 0.4, "reimport-existing": 0.15, "delete-then
                       "clone-then-mutate": 0.03, "disjoint": 0.3, "collide-import": 0.2}
 
 GIDS = ["g0", "g1", "g2", "g3"]
-IDS = ["a", "b", "c", "d"]
+IDS = ["a", "b", "c", "d"]      # ("e", "f", "h" are only used for nodes added right after an import)
 CLS = ["X", "Y"]
 RELS = ["r", "s"]
 PNAMES = ["p", "q", "Name", "Type"]
@@ -67,7 +68,7 @@ def _desc(draw):
 
 @st.composite
 def _op(draw, ndesc):
-    k = draw(st.sampled_from(["import"] * 8 + ["import_direct"] * 3 + ["clone"] * 6 + ["delete_graph"] * 3 +
+    k = draw(st.sampled_from(["import"] * 8 + ["import_direct"] * 3 + ["import_bad"] * 2 + ["clone"] * 6 + ["delete_graph"] * 3 +
                              ["delete_graph_imp"] * 3 + ["delete_all"] +
                              ["add_node"] * 6 + ["delete_node"] * 3 + ["add_link"] * 3 + ["upd_node"] * 5 +
                              ["unset_node", "upd_node_props", "upd_node_props"] + ["upd_nodes"] * 4 +
@@ -76,10 +77,12 @@ def _op(draw, ndesc):
     if k == "import":
         return [k, g, draw(st.integers(0, ndesc - 1)), draw(st.sampled_from(["graphml", "json"])),
                 draw(st.sampled_from(["string", "string", "file", "string_none"])),
-                draw(st.sampled_from(["int", "int", "str"])), draw(st.sampled_from([None, "other", "g1"]))]
+                draw(st.sampled_from(["int", "int", "str", "gap"])), draw(st.sampled_from([None, "other", "g1"]))]
     if k == "import_direct":
         return [k, g, draw(st.integers(0, ndesc - 1)), draw(st.sampled_from(["graphml", "json"])),
-                draw(st.sampled_from(["string", "file"])), draw(st.sampled_from(["int", "str"]))]
+                draw(st.sampled_from(["string", "file"])), draw(st.sampled_from(["int", "str", "gap", "gap"]))]
+    if k == "import_bad":
+        return [k, g, draw(st.integers(0, ndesc - 1)), draw(st.sampled_from(["graphml", "json"])), draw(st.integers(0, 3))]
     if k == "clone":
         return [k, g, draw(st.sampled_from(["g1", "g2", "g2", "g3", "g0"]))]
     if k in ("delete_graph", "delete_graph_imp"):
@@ -122,7 +125,16 @@ def _case(draw, maxlen):
     pre = [["import", "g0", 0, draw(st.sampled_from(["graphml", "json"])), "string", "int", None],
            ["import", "g1", 1, draw(st.sampled_from(["graphml", "json"])), "string", "int", None]]
     ops = draw(st.lists(_op(len(descs)), min_size=4, max_size=maxlen))
-    return {"fl": draw(st.sampled_from(["shared", "disjoint"])), "descs": descs, "ops": pre + ops}
+    # an import is often followed by growing that very graph (id allocation right after an import)
+    out = []
+    for op in ops:
+        out.append(op)
+        if op[0] in ("import", "import_direct", "clone") and draw(st.integers(0, 2)) == 0:
+            g = op[2] if op[0] == "clone" else op[1]
+            out.append(["add_node", g, draw(st.sampled_from(["e", "f"])), draw(st.sampled_from(CLS)), None])
+            if draw(st.booleans()):
+                out.append(["add_node", g, "h", "X", {"p": 1}])
+    return {"fl": draw(st.sampled_from(["shared", "disjoint"])), "descs": descs, "ops": pre + out}
 
 
 def strategy(tier):
@@ -130,12 +142,16 @@ def strategy(tier):
 
 
 # ------------------------------------------------------------------ text production (harness side, plain networkx)
-def make_text(desc, fmt, keys, carried_gid):
+def make_text(desc, fmt, keys, carried_gid, drop_nodeid_at=None):
     import networkx as nx
     g = nx.Graph()
-    key = (lambda i: i + 1) if keys == "int" else (lambda i: f"k{i}")
+    # "int": 1..n (collides with stored internal ids); "gap": integers with holes, not starting at 1 (a file written
+    # by the library after nodes were deleted); "str": strings
+    key = (lambda i: i + 1) if keys == "int" else (lambda i: i + 2 + (i // 2)) if keys == "gap" else (lambda i: f"k{i}")
     for i, n in enumerate(desc["nodes"]):
         attrs = {"NodeID": n["id"], "Class": n["cls"]}
+        if drop_nodeid_at is not None and i == min(drop_nodeid_at, len(desc["nodes"]) - 1):
+            del attrs["NodeID"]
         attrs.update(n.get("props") or {})
         if carried_gid is not None:
             attrs["GraphID"] = carried_gid
@@ -250,6 +266,25 @@ def run_case(case):
                     nt_kinds.add("delete-then-reimport")
                 if keys == "int" and store_nonempty and step >= 2:
                     nt_kinds.add("collide-import")
+                touched.add(target)
+            elif kind == "import_bad":
+                # a text in which one node (not necessarily the first) lacks its NodeID: the import must be refused
+                desc = case["descs"][op[2]]
+                target = op[1]
+                text = make_text(desc, op[3], "int", None, drop_nodeid_at=op[4])
+                skip = fl == "disjoint" and model_nonempty(target)      # documented skip: the text is not even read
+                try:
+                    imp.import_graph_from_string(graph_string=text, graph_id=target)
+                    refused = False
+                except Exception as e:
+                    refused = True
+                    if _is_lock_error(e):
+                        bad("lock-error", f"{type(e).__name__}: {e}")
+                if not refused and not skip:
+                    bad("should-raise", "a graph with a node lacking NodeID was imported")
+                if refused and fl == "shared":
+                    M.delete_graph(target)      # the shared store deletes the graph of that id before it validates
+                labels.add("failed-import")
                 touched.add(target)
             elif kind == "clone":
                 src, dst = op[1], op[2]
